@@ -1020,7 +1020,10 @@ func EnclosingLoopHeader(fn *ssa.Function, in ssa.Instruction) *ssa.BasicBlock {
 	var best *ssa.BasicBlock
 	for _, be := range BackEdges(fn) {
 		hdr := be[1]
-		if hdr.Dominates(in.Block()) && ReachesFrom(fn, in.Block(), 0, be[0].Instrs[len(be[0].Instrs)-1], Cut{}) {
+		// (in the loop: the header dominates it and it reaches the latch without leaving through the header — code after
+		// an inner loop is dominated by that loop's header and reaches its latch again on the next turn of the outer loop)
+		inLoop := in.Block() == hdr || in.Block() == be[0] || ReachesFrom(fn, in.Block(), 0, be[0].Instrs[len(be[0].Instrs)-1], Cut{Barrier: func(x ssa.Instruction) bool { return x.Block() == hdr }})
+		if hdr.Dominates(in.Block()) && inLoop {
 			if best == nil || best.Dominates(hdr) {
 				best = hdr
 			}
